@@ -599,12 +599,13 @@ pub fn run_exchange(spec: &ExchangeSpec, start: Option<Flow<(), Prepare>>, strea
                 }
                 let take = s.body_in(rest.len());
                 s.splits[1] += 1;
-                if !chunked && take > 0 && s.flag(15) {
-                    // the caller transmits these bytes itself and reports them
+                if !chunked && s.flag(15) {
+                    // the caller transmits these bytes itself and reports them (a report of 0 bytes is the end signal of an
+                    // empty remainder, exactly like an empty write)
                     sb.consume_direct_write(take).map_err(|e| format!("consume_direct_write({}): {:?}", take, e))?;
                     req_wire.extend_from_slice(&rest[..take]);
                     rest = &rest[take..];
-                    s.progress(true);
+                    s.progress(take > 0 || sb.can_proceed());
                     continue;
                 }
                 let ob = s.body_out(take);
